@@ -229,7 +229,10 @@ impl World {
     }
     fn fail(&mut self, sig: &str, what: String) {
         self.note(format!("!! {}: {}", sig, what));
-        self.findings.push(Finding { sig: sig.to_string(), what });
+        self.findings.push(Finding {
+            sig: sig.to_string(),
+            what,
+        });
     }
 
     // ---- the daemon's own view (sequencing and counting only)
@@ -361,7 +364,9 @@ impl World {
         let mut progress = false;
         let mut notes = Vec::new();
         for c in self.conns.iter_mut() {
-            let Some(cl) = c.client.as_ref() else { continue };
+            let Some(cl) = c.client.as_ref() else {
+                continue;
+            };
             if c.eof {
                 continue;
             }
@@ -389,7 +394,12 @@ impl World {
                     Ok(Some(m)) => match m {
                         bgp::ParsedMessage::Open(o) => {
                             c.got_open = true;
-                            notes.push(format!("{}: remote end reads OPEN(id={:#010x}, hold={})", c.label, o.router_id, o.holdtime.seconds()));
+                            notes.push(format!(
+                                "{}: remote end reads OPEN(id={:#010x}, hold={})",
+                                c.label,
+                                o.router_id,
+                                o.holdtime.seconds()
+                            ));
                         }
                         bgp::ParsedMessage::Keepalive => {
                             if c.sent_open && !c.keepalive_after_open {
@@ -399,14 +409,23 @@ impl World {
                         }
                         bgp::ParsedMessage::Update(_) => c.updates += 1,
                         bgp::ParsedMessage::Notification(n) => {
-                            c.notification = Some((n.notification_code(), n.notification_subcode()));
-                            notes.push(format!("{}: remote end reads NOTIFICATION {}/{}", c.label, n.notification_code(), n.notification_subcode()));
+                            c.notification =
+                                Some((n.notification_code(), n.notification_subcode()));
+                            notes.push(format!(
+                                "{}: remote end reads NOTIFICATION {}/{}",
+                                c.label,
+                                n.notification_code(),
+                                n.notification_subcode()
+                            ));
                         }
                         _ => {}
                     },
                     Ok(None) => break,
                     Err(_) => {
-                        notes.push(format!("{}: remote end cannot parse what the daemon sent", c.label));
+                        notes.push(format!(
+                            "{}: remote end cannot parse what the daemon sent",
+                            c.label
+                        ));
                         c.rx.clear();
                         break;
                     }
@@ -498,7 +517,12 @@ impl World {
             ok = cl.write_all(&buf).await.is_ok();
         }
         let l = c.label.clone();
-        self.note(format!("{}: remote sends {}{}", l, what, if ok { "" } else { " (write failed)" }));
+        self.note(format!(
+            "{}: remote sends {}{}",
+            l,
+            what,
+            if ok { "" } else { " (write failed)" }
+        ));
     }
 
     async fn send_open(&mut self, i: usize) {
@@ -512,7 +536,10 @@ impl World {
             ],
         });
         self.conns[i].sent_open = true;
-        let what = format!("OPEN(id={:#010x}, hold={})", self.remote_id, self.remote_hold);
+        let what = format!(
+            "OPEN(id={:#010x}, hold={})",
+            self.remote_id, self.remote_hold
+        );
         self.send(i, open, &what).await;
     }
 
@@ -528,7 +555,11 @@ impl World {
             drop(cl);
         }
         let l = c.label.clone();
-        self.note(format!("{}: remote closes ({})", l, if rst { "RST" } else { "FIN" }));
+        self.note(format!(
+            "{}: remote closes ({})",
+            l,
+            if rst { "RST" } else { "FIN" }
+        ));
     }
 
     /// take a started or held connection up to `stage`
@@ -537,27 +568,39 @@ impl World {
             return Ok(());
         }
         self.start(i);
-        self.wait_until("daemon's OPEN", |w| w.conns[i].got_open || w.conns[i].eof).await?;
+        self.wait_until("daemon's OPEN", |w| w.conns[i].got_open || w.conns[i].eof)
+            .await?;
         if stage == Stage::OpenSent {
             return Ok(());
         }
         if !self.conns[i].sent_open {
             self.send_open(i).await;
         }
-        self.wait_until("KEEPALIVE answering the OPEN", |w| w.conns[i].keepalive_after_open || !w.conns[i].up()).await?;
+        self.wait_until("KEEPALIVE answering the OPEN", |w| {
+            w.conns[i].keepalive_after_open || !w.conns[i].up()
+        })
+        .await?;
         if stage == Stage::OpenConfirm {
             return Ok(());
         }
         self.send(i, bgp::Message::Keepalive, "KEEPALIVE").await;
         let role = self.conns[i].role;
-        self.wait_until("Established", |w| w.state(role) == SessionState::Established || !w.conns[i].up()).await?;
+        self.wait_until("Established", |w| {
+            w.state(role) == SessionState::Established || !w.conns[i].up()
+        })
+        .await?;
         Ok(())
     }
 
     // ---- judgements
 
     /// (c): a new connection of `role` after its predecessor went away for `cause`
-    async fn reconnect(&mut self, role: Role, cause: &str, pre: Option<(TcpStream, TcpStream)>) -> Result<usize, Abort> {
+    async fn reconnect(
+        &mut self,
+        role: Role,
+        cause: &str,
+        pre: Option<(TcpStream, TcpStream)>,
+    ) -> Result<usize, Abort> {
         let i = match pre {
             Some(p) => self.accept(role, p).await,
             None => self.connect(role).await?,
@@ -565,7 +608,12 @@ impl World {
         if !self.conns[i].accepted {
             self.fail(
                 &format!("C07/real/idle/{}/reconnect-refused", cause),
-                format!("a new {} connection after {} was refused by accept_connection [{}]", rname(role), cause, self.daemon_view()),
+                format!(
+                    "a new {} connection after {} was refused by accept_connection [{}]",
+                    rname(role),
+                    cause,
+                    self.daemon_view()
+                ),
             );
         } else {
             self.count(format!("real:reconnect-accepted-after:{}", cause));
@@ -579,12 +627,20 @@ impl World {
             return Ok(());
         }
         self.start(i);
-        self.wait_until("OPEN on the new connection", |w| w.conns[i].got_open || w.conns[i].eof).await?;
+        self.wait_until("OPEN on the new connection", |w| {
+            w.conns[i].got_open || w.conns[i].eof
+        })
+        .await?;
         if !self.conns[i].got_open {
             let l = self.conns[i].label.clone();
             self.fail(
                 &format!("C07/real/idle/{}/no-open-on-new-connection", cause),
-                format!("{} was accepted after {} but closed without an OPEN [{}]", l, cause, self.daemon_view()),
+                format!(
+                    "{} was accepted after {} but closed without an OPEN [{}]",
+                    l,
+                    cause,
+                    self.daemon_view()
+                ),
             );
         }
         Ok(())
@@ -592,9 +648,18 @@ impl World {
 
     /// (a) + (b) for the two connections `x`, `y` after both OPENs have been sent.
     /// `established`: the connection that was Established before the other one's OPEN went out.
-    async fn judge_collision(&mut self, x: usize, y: usize, established: Option<usize>) -> Option<usize> {
+    async fn judge_collision(
+        &mut self,
+        x: usize,
+        y: usize,
+        established: Option<usize>,
+    ) -> Option<usize> {
         self.settle().await;
-        if self.conns[x].up() && self.conns[y].up() && self.conns[x].keepalive_after_open && self.conns[y].keepalive_after_open {
+        if self.conns[x].up()
+            && self.conns[y].up()
+            && self.conns[x].keepalive_after_open
+            && self.conns[y].keepalive_after_open
+        {
             // "both still up" is the one judgement that rests on something NOT happening:
             // give it two more seconds of wall-clock on top of the state-based quiescence
             // (the kernel may deliver loopback data late on a loaded machine)
@@ -613,18 +678,26 @@ impl World {
         let answered = |c: &Conn| c.keepalive_after_open || !c.up();
         if !(answered(&self.conns[x]) && answered(&self.conns[y])) {
             self.count("real:unjudged:open-not-answered".into());
-            self.note(format!("?? an OPEN was neither answered nor refused at quiescence [{}]", view));
+            self.note(format!(
+                "?? an OPEN was neither answered nor refused at quiescence [{}]",
+                view
+            ));
             return None;
         }
         self.count("real:collisions-judged".into());
         match (ux, uy) {
             (true, true) => {
                 // both remote ends are in OpenConfirm-or-Established and nothing moves any more
-                let fsm_busy = |s: SessionState| matches!(s, SessionState::OpenConfirm | SessionState::Established);
+                let fsm_busy = |s: SessionState| {
+                    matches!(s, SessionState::OpenConfirm | SessionState::Established)
+                };
                 if fsm_busy(self.state(Role::Active)) && fsm_busy(self.state(Role::Passive)) {
                     self.fail(
                         "C07/real/at-most-one/both-roles-open-confirm-or-established",
-                        format!("{} and {} are both up at quiescence and both FSM slots are busy [{}]", lx, ly, view),
+                        format!(
+                            "{} and {} are both up at quiescence and both FSM slots are busy [{}]",
+                            lx, ly, view
+                        ),
                     );
                 } else {
                     self.fail(
@@ -655,18 +728,30 @@ impl World {
                     Some((6, 7)) => self.count("real:loser-read-cease-collision".into()),
                     Some((c, sc)) => self.fail(
                         "C07/real/collision/loser-got-other-notification",
-                        format!("loser {} read NOTIFICATION {}/{} instead of Cease/collision 6/7 [{}]", ll, c, sc, view),
+                        format!(
+                            "loser {} read NOTIFICATION {}/{} instead of Cease/collision 6/7 [{}]",
+                            ll, c, sc, view
+                        ),
                     ),
-                    None if self.conns[l].reset => self.count("real:unjudged:loser-reset-without-notification".into()),
+                    None if self.conns[l].reset => {
+                        self.count("real:unjudged:loser-reset-without-notification".into())
+                    }
                     None => self.fail(
                         "C07/real/collision/no-cease-to-loser",
-                        format!("loser {} read EOF without a NOTIFICATION Cease/collision [{}]", ll, view),
+                        format!(
+                            "loser {} read EOF without a NOTIFICATION Cease/collision [{}]",
+                            ll, view
+                        ),
                     ),
                 }
                 let expected = match established {
                     Some(e) => e,
                     None => {
-                        let want = if LOCAL_ID > self.remote_id { Role::Active } else { Role::Passive };
+                        let want = if LOCAL_ID > self.remote_id {
+                            Role::Active
+                        } else {
+                            Role::Passive
+                        };
                         if self.conns[x].role == want { x } else { y }
                     }
                 };
@@ -674,7 +759,14 @@ impl World {
                     let why = if established.is_some() {
                         "established-did-not-survive".to_string()
                     } else {
-                        format!("local-id-{}", if LOCAL_ID > self.remote_id { "higher" } else { "lower" })
+                        format!(
+                            "local-id-{}",
+                            if LOCAL_ID > self.remote_id {
+                                "higher"
+                            } else {
+                                "lower"
+                            }
+                        )
                     };
                     self.fail(
                         &format!("C07/real/collision/wrong-survivor/{}", why),
@@ -683,7 +775,10 @@ impl World {
                 } else if established.is_some() {
                     self.count("real:established-survived-newcomer".into());
                 } else {
-                    self.count(format!("real:survivor-by-identifier:{}", rname(self.conns[s].role)));
+                    self.count(format!(
+                        "real:survivor-by-identifier:{}",
+                        rname(self.conns[s].role)
+                    ));
                 }
                 Some(s)
             }
@@ -718,7 +813,10 @@ impl World {
             c.client = None;
         }
         for l in panicked {
-            self.fail("C07/real/panic/session-task", format!("the session task of {} panicked", l));
+            self.fail(
+                "C07/real/panic/session-task",
+                format!("the session task of {} panicked", l),
+            );
         }
     }
 }
@@ -731,18 +829,33 @@ fn pick_remote_id(rng: &mut Rng) -> u32 {
 }
 
 fn pick_stage(rng: &mut Rng, max: Stage) -> Stage {
-    let all = [Stage::NotStarted, Stage::OpenSent, Stage::OpenConfirm, Stage::Established];
+    let all = [
+        Stage::NotStarted,
+        Stage::OpenSent,
+        Stage::OpenConfirm,
+        Stage::Established,
+    ];
     let n = all.iter().position(|s| *s == max).unwrap() + 1;
     all[rng.usize(n)]
 }
 
 /// the two connections are opened `first` then `second`; both get their OPEN; one must go
-async fn finish_collision(w: &mut World, rng: &mut Rng, a: usize, b: usize) -> Result<Option<usize>, Abort> {
+async fn finish_collision(
+    w: &mut World,
+    rng: &mut Rng,
+    a: usize,
+    b: usize,
+) -> Result<Option<usize>, Abort> {
     // both tasks running, both OPENs of the daemon read
     for i in [a, b] {
         w.start(i);
     }
-    w.wait_until("both daemon OPENs", |w| [a, b].iter().all(|i| w.conns[*i].got_open || !w.conns[*i].up())).await?;
+    w.wait_until("both daemon OPENs", |w| {
+        [a, b]
+            .iter()
+            .all(|i| w.conns[*i].got_open || !w.conns[*i].up())
+    })
+    .await?;
     let established = [a, b].into_iter().find(|i| {
         let c = &w.conns[*i];
         c.up() && c.task.is_some() && w.state(c.role) == SessionState::Established
@@ -762,7 +875,11 @@ async fn finish_collision(w: &mut World, rng: &mut Rng, a: usize, b: usize) -> R
 
 /// S1: second connection arrives while the first is in a chosen stage; both complete the OPEN exchange
 async fn scenario_collision(w: &mut World, rng: &mut Rng) -> Result<(), Abort> {
-    let first_role = if rng.bool() { Role::Active } else { Role::Passive };
+    let first_role = if rng.bool() {
+        Role::Active
+    } else {
+        Role::Passive
+    };
     let stage = pick_stage(rng, Stage::Established);
     let a = w.connect(first_role).await?;
     w.drive_to(a, stage).await?;
@@ -771,7 +888,10 @@ async fn scenario_collision(w: &mut World, rng: &mut Rng) -> Result<(), Abort> {
     w.count(format!("order:second-arrives:first-{}", seen));
     let b = w.connect(other(first_role)).await?;
     if !w.conns[b].accepted {
-        w.fail("C07/real/idle/initial/connection-of-other-role-refused", format!("[{}]", w.daemon_view()));
+        w.fail(
+            "C07/real/idle/initial/connection-of-other-role-refused",
+            format!("[{}]", w.daemon_view()),
+        );
         return Ok(());
     }
     // who runs first when the first one was held back
@@ -818,9 +938,17 @@ impl Kill {
 /// S2: one role is torn down while the other role's connection is in a chosen window;
 /// then the torn-down role connects again (c) and the two collide (a)(b)
 async fn scenario_teardown(w: &mut World, rng: &mut Rng, kill: Kill) -> Result<(), Abort> {
-    let vrole = if rng.bool() { Role::Active } else { Role::Passive };
+    let vrole = if rng.bool() {
+        Role::Active
+    } else {
+        Role::Passive
+    };
     let vstage = if kill == Kill::HoldExpiry {
-        if rng.bool() { Stage::OpenConfirm } else { Stage::Established }
+        if rng.bool() {
+            Stage::OpenConfirm
+        } else {
+            Stage::Established
+        }
     } else {
         [Stage::OpenSent, Stage::OpenConfirm, Stage::Established][rng.usize(3)]
     };
@@ -856,11 +984,19 @@ async fn scenario_teardown(w: &mut World, rng: &mut Rng, kill: Kill) -> Result<(
     w.count(format!("teardown-kind:{:?}", kill));
     match kill {
         Kill::Notification => {
-            w.send(v, bgp::Message::Notification(packet::Notification::CeaseAdminShutdown), "NOTIFICATION 6/2").await;
+            w.send(
+                v,
+                bgp::Message::Notification(packet::Notification::CeaseAdminShutdown),
+                "NOTIFICATION 6/2",
+            )
+            .await;
         }
         Kill::Fin => w.close(v, false).await,
         Kill::Rst => w.close(v, true).await,
-        Kill::HoldExpiry => w.note(format!("{}: remote stays silent until the hold timer expires", w.conns[v].label)),
+        Kill::HoldExpiry => w.note(format!(
+            "{}: remote stays silent until the hold timer expires",
+            w.conns[v].label
+        )),
     }
     // the other connection's task may start while the tear-down is under way, or only afterwards
     let start_other_early = rng.chance(1, 3);
@@ -868,14 +1004,23 @@ async fn scenario_teardown(w: &mut World, rng: &mut Rng, kill: Kill) -> Result<(
         w.jitter(rng).await;
         w.start(o);
     }
-    w.wait_until("torn-down session task to finish", |w| w.conns[v].task.as_ref().is_some_and(|t| t.is_finished())).await?;
+    w.wait_until("torn-down session task to finish", |w| {
+        w.conns[v].task.as_ref().is_some_and(|t| t.is_finished())
+    })
+    .await?;
     w.settle().await;
     if kill == Kill::HoldExpiry {
         match w.conns[v].notification {
             Some((4, _)) => w.count("real:hold-expiry-notification-read".into()),
             other => {
                 let l = w.conns[v].label.clone();
-                w.fail("C07/real/idle/hold-expiry/no-hold-timer-notification", format!("{}: remote read {:?} instead of Hold Timer Expired", l, other));
+                w.fail(
+                    "C07/real/idle/hold-expiry/no-hold-timer-notification",
+                    format!(
+                        "{}: remote read {:?} instead of Hold Timer Expired",
+                        l, other
+                    ),
+                );
             }
         }
     }
@@ -883,7 +1028,11 @@ async fn scenario_teardown(w: &mut World, rng: &mut Rng, kill: Kill) -> Result<(
         let l = w.conns[v].label.clone();
         w.fail(
             &format!("C07/real/idle/{}/connection-not-closed", kill.cause()),
-            format!("{}: the session task ended but the remote end reads no EOF [{}]", l, w.daemon_view()),
+            format!(
+                "{}: the session task ended but the remote end reads no EOF [{}]",
+                l,
+                w.daemon_view()
+            ),
         );
     }
     w.note(format!("after the tear-down: [{}]", w.daemon_view()));
@@ -899,7 +1048,15 @@ async fn scenario_teardown(w: &mut World, rng: &mut Rng, kill: Kill) -> Result<(
     // the other connection goes on; then the two collide
     let ofirst = rng.bool();
     if ofirst {
-        w.drive_to(o, if rng.bool() { Stage::OpenConfirm } else { Stage::Established }).await?;
+        w.drive_to(
+            o,
+            if rng.bool() {
+                Stage::OpenConfirm
+            } else {
+                Stage::Established
+            },
+        )
+        .await?;
     }
     w.expect_open(n, kill.cause()).await?;
     if w.conns[n].got_open {
@@ -912,7 +1069,11 @@ async fn scenario_teardown(w: &mut World, rng: &mut Rng, kill: Kill) -> Result<(
 /// collision being resolved inside the FSM and the loser's task running its tear-down;
 /// later that connection must itself be told when it loses a collision
 async fn scenario_after_collision_window(w: &mut World, rng: &mut Rng) -> Result<(), Abort> {
-    let lrole = if LOCAL_ID > w.remote_id { Role::Passive } else { Role::Active };
+    let lrole = if LOCAL_ID > w.remote_id {
+        Role::Passive
+    } else {
+        Role::Active
+    };
     let wrole = other(lrole);
     // loser reaches OpenConfirm first, the winner's OPEN makes the collision (loser is not the caller)
     let l1 = w.connect(lrole).await?;
@@ -926,12 +1087,21 @@ async fn scenario_after_collision_window(w: &mut World, rng: &mut Rng) -> Result
     let t = Instant::now();
     while w.state(lrole) != SessionState::Idle {
         if t.elapsed() > WATCHDOG {
-            return Err(Abort::Inconclusive("watchdog: collision not resolved".into()));
+            return Err(Abort::Inconclusive(
+                "watchdog: collision not resolved".into(),
+            ));
         }
         Turn(false).await;
     }
     let in_window = w.conns[l1].task.as_ref().is_some_and(|t| !t.is_finished());
-    w.count(format!("order:new-connection-after-collision:loser-task-{}", if in_window { "still-running" } else { "finished" }));
+    w.count(format!(
+        "order:new-connection-after-collision:loser-task-{}",
+        if in_window {
+            "still-running"
+        } else {
+            "finished"
+        }
+    ));
     // the accept loop's turn: the loser's role connects again right now.  While the loser
     // is still winding down the daemon may refuse (the statement only wants the slot free
     // once the connection has been closed); after quiescence it must accept.
@@ -950,7 +1120,15 @@ async fn scenario_after_collision_window(w: &mut World, rng: &mut Rng) -> Result
     }
     if !matches!(w.conns[l1].notification, Some((6, 7))) {
         let l = w.conns[l1].label.clone();
-        w.fail("C07/real/collision/no-cease-to-loser", format!("{}: remote read {:?} [{}]", l, w.conns[l1].notification, w.daemon_view()));
+        w.fail(
+            "C07/real/collision/no-cease-to-loser",
+            format!(
+                "{}: remote read {:?} [{}]",
+                l,
+                w.conns[l1].notification,
+                w.daemon_view()
+            ),
+        );
     }
     if !w.conns[l2].accepted {
         return Ok(());
@@ -962,9 +1140,19 @@ async fn scenario_after_collision_window(w: &mut World, rng: &mut Rng) -> Result
     match how {
         0 => w.close(w1, false).await,
         1 => w.close(w1, true).await,
-        _ => w.send(w1, bgp::Message::Notification(packet::Notification::CeaseAdminShutdown), "NOTIFICATION 6/2").await,
+        _ => {
+            w.send(
+                w1,
+                bgp::Message::Notification(packet::Notification::CeaseAdminShutdown),
+                "NOTIFICATION 6/2",
+            )
+            .await
+        }
     }
-    w.wait_until("winner's session task to finish", |w| w.conns[w1].task.as_ref().is_some_and(|t| t.is_finished())).await?;
+    w.wait_until("winner's session task to finish", |w| {
+        w.conns[w1].task.as_ref().is_some_and(|t| t.is_finished())
+    })
+    .await?;
     w.settle().await;
     if !w.conns[l2].up() {
         w.count("real:unjudged:successor-gone".into());
@@ -985,12 +1173,20 @@ async fn scenario_after_collision_window(w: &mut World, rng: &mut Rng) -> Result
 /// and the peer-level section of PeerSession::run; a new connection is accepted in
 /// that window; later it must be told when it loses a collision
 async fn scenario_teardown_with_reader(w: &mut World, rng: &mut Rng) -> Result<(), Abort> {
-    let yrole = if rng.bool() { Role::Active } else { Role::Passive };
+    let yrole = if rng.bool() {
+        Role::Active
+    } else {
+        Role::Passive
+    };
     let ystage = [Stage::OpenSent, Stage::OpenConfirm, Stage::Established][rng.usize(3)];
     let y = w.connect(yrole).await?;
     w.drive_to(y, ystage).await?;
     // X will have to lose a collision later as the non-caller: its role is the one the identifier rule lets lose
-    let xrole = if LOCAL_ID > w.remote_id { Role::Passive } else { Role::Active };
+    let xrole = if LOCAL_ID > w.remote_id {
+        Role::Passive
+    } else {
+        Role::Active
+    };
     let spare = w.make_pair(xrole).await?;
     w.settle().await;
     let guard = w.global.clone().read_owned().await;
@@ -998,13 +1194,20 @@ async fn scenario_teardown_with_reader(w: &mut World, rng: &mut Rng) -> Result<(
     if rng.bool() {
         w.close(y, rng.bool()).await;
     } else {
-        w.send(y, bgp::Message::Notification(packet::Notification::CeaseAdminShutdown), "NOTIFICATION 6/2").await;
+        w.send(
+            y,
+            bgp::Message::Notification(packet::Notification::CeaseAdminShutdown),
+            "NOTIFICATION 6/2",
+        )
+        .await;
     }
     // until Y's task has given its slot and close channel back (and is parked on the write lock)
     let t = Instant::now();
     while w.chan(yrole) || w.state(yrole) != SessionState::Idle {
         if t.elapsed() > WATCHDOG {
-            return Err(Abort::Inconclusive("watchdog: tear-down under a read lock".into()));
+            return Err(Abort::Inconclusive(
+                "watchdog: tear-down under a read lock".into(),
+            ));
         }
         w.round().await;
     }
@@ -1012,7 +1215,14 @@ async fn scenario_teardown_with_reader(w: &mut World, rng: &mut Rng) -> Result<(
         w.round().await;
     }
     let parked = w.conns[y].task.as_ref().is_some_and(|t| !t.is_finished());
-    w.count(format!("order:accept-during-teardown:ending-task-{}", if parked { "parked-before-peer-section" } else { "finished" }));
+    w.count(format!(
+        "order:accept-during-teardown:ending-task-{}",
+        if parked {
+            "parked-before-peer-section"
+        } else {
+            "finished"
+        }
+    ));
     // the reader is done; the accept loop handles a new connection
     drop(guard);
     w.note("the reader releases the lock".into());
@@ -1032,7 +1242,17 @@ async fn scenario_teardown_with_reader(w: &mut World, rng: &mut Rng) -> Result<(
         w.count("real:unjudged:successor-gone".into());
         return Ok(());
     }
-    let z = w.reconnect(other(xrole), if xrole == yrole { "initial" } else { "disconnect" }, None).await?;
+    let z = w
+        .reconnect(
+            other(xrole),
+            if xrole == yrole {
+                "initial"
+            } else {
+                "disconnect"
+            },
+            None,
+        )
+        .await?;
     w.expect_open(z, "disconnect").await?;
     if w.conns[z].got_open && w.conns[x].up() {
         w.count("order:successor-collides-as-non-caller".into());
@@ -1043,7 +1263,17 @@ async fn scenario_teardown_with_reader(w: &mut World, rng: &mut Rng) -> Result<(
 
 // ------------------------------------------------------------------ driver
 
-async fn one_scenario(kind: usize, seed: u64) -> (Vec<Finding>, Vec<String>, Vec<String>, Option<String>, &'static str, u32) {
+async fn one_scenario(
+    kind: usize,
+    seed: u64,
+) -> (
+    Vec<Finding>,
+    Vec<String>,
+    Vec<String>,
+    Option<String>,
+    &'static str,
+    u32,
+) {
     let mut rng = Rng::new(seed);
     let remote_id = pick_remote_id(&mut rng);
     let (name, hold): (&'static str, u16) = match kind {
@@ -1055,9 +1285,14 @@ async fn one_scenario(kind: usize, seed: u64) -> (Vec<Finding>, Vec<String>, Vec
     };
     let mut w = match World::new(remote_id, hold as u64, hold).await {
         Ok(w) => w,
-        Err(Abort::Inconclusive(e)) => return (Vec::new(), Vec::new(), Vec::new(), Some(e), name, remote_id),
+        Err(Abort::Inconclusive(e)) => {
+            return (Vec::new(), Vec::new(), Vec::new(), Some(e), name, remote_id);
+        }
     };
-    w.note(format!("scenario {} seed {} local id {:#010x} remote id {:#010x} hold {}", name, seed, LOCAL_ID, remote_id, hold));
+    w.note(format!(
+        "scenario {} seed {} local id {:#010x} remote id {:#010x} hold {}",
+        name, seed, LOCAL_ID, remote_id, hold
+    ));
     let r = match kind {
         0 => scenario_collision(&mut w, &mut rng).await,
         1 => {
@@ -1071,7 +1306,11 @@ async fn one_scenario(kind: usize, seed: u64) -> (Vec<Finding>, Vec<String>, Vec
     w.teardown().await;
     let inconclusive = match r {
         Ok(()) => None,
-        Err(Abort::Inconclusive(e)) => Some(format!("{} (after {:.1}s)", e, w.t0.elapsed().as_secs_f64())),
+        Err(Abort::Inconclusive(e)) => Some(format!(
+            "{} (after {:.1}s)",
+            e,
+            w.t0.elapsed().as_secs_f64()
+        )),
     };
     (
         std::mem::take(&mut w.findings),
@@ -1090,7 +1329,10 @@ fn run() {
     rep.lock().unwrap().max_samples = 2;
     let n = params.get_u64("scenarios", params.n(120, 1500));
     let only = params.get("kind").map(|s| s.to_string());
-    let rt = match tokio::runtime::Builder::new_current_thread().enable_all().build() {
+    let rt = match tokio::runtime::Builder::new_current_thread()
+        .enable_all()
+        .build()
+    {
         Ok(rt) => rt,
         Err(e) => {
             let mut r = rep.lock().unwrap();
@@ -1181,7 +1423,10 @@ fn run() {
                 if let Some(why) = inc {
                     inconclusive += 1;
                     rep.count("real:scenario-inconclusive");
-                    eprintln!("[C07b] scenario {} seed {} inconclusive: {}", name, seed, why);
+                    eprintln!(
+                        "[C07b] scenario {} seed {} inconclusive: {}",
+                        name, seed, why
+                    );
                 }
                 let wit = |trace: &Vec<String>| {
                     Json::obj(vec![
@@ -1198,7 +1443,9 @@ fn run() {
                 }
                 for f in findings {
                     // the scenario family (which window was produced) is part of the finding's identity
-                    let sig = f.sig.replacen("C07/real/", &format!("C07/real/{}/", name), 1);
+                    let sig = f
+                        .sig
+                        .replacen("C07/real/", &format!("C07/real/{}/", name), 1);
                     rep.violation(&sig, &f.what, wit(&trace));
                 }
                 if rep.want_sample() && kind != 0 {
@@ -1214,7 +1461,10 @@ fn run() {
     }
     rep.count_n("real:scenarios", done);
     if inconclusive * 5 > done.max(1) {
-        rep.inconclusive(&format!("{} of {} real-task scenarios ended in a harness time-out", inconclusive, done));
+        rep.inconclusive(&format!(
+            "{} of {} real-task scenarios ended in a harness time-out",
+            inconclusive, done
+        ));
     }
     let _ = rep.finish();
 }
